@@ -145,7 +145,13 @@ partial def specOfJson (j : Json) : Except String Spec := do
       return (op, pos, kw))
     return .invoke (← sub "func") (← j.getObjValAs? Bool "func_is_spec") blocks
   | "ref" => return .ref (← str "name") (← optSub "sub")
-  | "vars" => return .vars (← kvs "defaults")
+  | "vars" =>
+    -- ScopeVars(base, defaults): dict(base) updated with the keyword defaults
+    let base ← (match optField j "base" with
+      | some _ => kvs "base"
+      | none => pure [])
+    let dfl ← kvs "defaults"
+    return .vars (base.filter (fun b => !(dfl.any (·.1 == b.1))) ++ dfl)
   | "let" => return .letB (← kws "bs")
   | "auto" => return .auto (← sub "s")
   | "fill" => return .fill (← sub "s")
